@@ -17,7 +17,7 @@ from fractions import Fraction as Fr
 from typing import Dict, Optional
 
 from .alg import AtomTable, Rat
-from .interp import (BoundMethod, ExtFunc, Field, Frame, Interp, ModRef, Obj, Opaque, PyFunc,
+from .interp import (BoundMethod, Cols, ExtFunc, Field, Frame, Interp, ModRef, Obj, Opaque, PyFunc,
                      Unsupported, Vec2)
 from .src import AnalysisError, Repo, loc, norm, own_nodes
 
@@ -75,6 +75,8 @@ class Quant:
 def _scale(mag, f: Rat):
     if isinstance(mag, Vec2):
         return Vec2(mag.x * f, mag.y * f)
+    if isinstance(mag, Cols):
+        return Cols([c * f for c in mag.cols])
     return mag * f
 
 
@@ -223,7 +225,7 @@ class DimInterp(Interp):
             return v
         if isinstance(v, UnitV):
             return Quant(self.one, v)
-        if isinstance(v, (Vec2,)):
+        if isinstance(v, (Vec2, Cols)):
             return Quant(v, UnitV(self.one, {}))
         if isinstance(v, Field) and v.comps == 2:
             return Quant(self.as_vec(v), UnitV(self.one, {}))
@@ -307,7 +309,50 @@ class DimInterp(Interp):
                 return Quant(_scale(recv.mag, recv.unit.factor), UnitV(self.one, dict(recv.unit.dims)))
             if name == "squeeze":
                 return recv
+            if name in ("min", "max"):
+                return self.fresh_const(name, recv)
         return super().call_method(recv, name, args, kwargs, node)
+
+    def e_Subscript(self, node, fr):
+        base = self.eval(node.value, fr)
+        if isinstance(base, Quant):
+            # index the magnitude, keep the unit
+            tmp = ast.Subscript(value=ast.Name(id="__q", ctx=ast.Load()), slice=node.slice, ctx=ast.Load())
+            f2 = Frame(fr.fi, fr.module, {"__q": base.mag}, parent=fr)
+            return Quant(super().e_Subscript(tmp, f2), base.unit)
+        return super().e_Subscript(node, fr)
+
+    def fresh_const(self, what, q: Quant) -> Quant:
+        self._fresh = getattr(self, "_fresh", 0) + 1
+        return Quant(self.T.real(f"{what}#{self._fresh}"), q.unit)
+
+    def x_numpy_ptp(self, a, k):
+        if isinstance(a[0], Quant):
+            return self.fresh_const("ptp", a[0])
+        raise Unsupported("ptp of a non-quantity")
+
+    def x_numpy_zeros_like(self, a, k):
+        if isinstance(a[0], Quant):
+            return Quant(self.const(0), a[0].unit)
+        return super().x_numpy_zeros_like(a, k)
+
+    def x_numpy_stack(self, a, k):
+        v = a[0]
+        if isinstance(v, list) and v and all(isinstance(x, Quant) for x in v) and k.get("axis") == 1:
+            u = v[0].unit
+            cols = []
+            for x in v:
+                if x.unit.dims != u.dims:
+                    raise DimMismatch("stacking quantities of different dimensions")
+                cols.append(_scale(x.mag, x.unit.factor / u.factor))
+            return Quant(Cols(cols), u)
+        return super().x_numpy_stack(a, k)
+
+    def x_builtins_isinstance(self, a, k):
+        v, c = a
+        if isinstance(c, ModRef) and c.dotted in ("pint.Quantity", "pint.quantity.Quantity"):
+            return isinstance(v, Quant)
+        return super().x_builtins_isinstance(a, k)
 
     def x_numpy_pi(self, a, k):
         return self.pi
